@@ -14,6 +14,7 @@ func init() {
 	zzsv.Register("ZZ_C20_RunVsExecute", ZZ_C20_RunVsExecute)
 	zzsv.Register("ZZ_C20_Variables", ZZ_C20_Variables)
 	zzsv.Register("ZZ_C20_HostFunctions", ZZ_C20_HostFunctions)
+	zzsv.Register("ZZ_C20_Reconfigure", ZZ_C20_Reconfigure)
 	zzsv.Register("ZZ_C20_NoOptimize", ZZ_C20_NoOptimize)
 }
 
@@ -229,4 +230,70 @@ func ZZ_C20_NoOptimize(sv *zzsv.T) {
 	out, err := e.Execute(nil)
 	zzDescribe(sv, "result", out, err)
 	sv.Assert("C20.noopt.runs", err == nil)
+}
+
+// ZZ_C20_Reconfigure: the front end is faithful at every moment, not only
+// before the first run: a function registered again under the same name, a
+// function registered after Prepare, and a variable set again between runs
+// are what the next run uses - the evaluator keeps no private copy from
+// earlier runs.
+func ZZ_C20_Reconfigure(sv *zzsv.T) {
+	a := sv.Int64("A")
+	r1 := sv.Int64("r1")
+	r2 := sv.Int64("r2")
+	v1 := sv.Int64("v1")
+	v2 := sv.Int64("v2")
+	scripts := []string{
+		"return h(A) + v;",
+		"function w(p) { return h(p); } return w(A) + v;",
+		"x = 0; foreach k in [1, 2] { x = h(A); } return x + v;",
+	}
+	e := New(scripts[sv.Choice("script", len(scripts))])
+	sv.Note("script", e.Script)
+	calls1, calls2 := 0, 0
+	e.AddFunction("h", func(args []object.Object) object.Object {
+		calls1++
+		return &object.Integer{Value: args[0].(*object.Integer).Value + r1}
+	})
+	e.SetVariable("A", &object.Integer{Value: a})
+	e.SetVariable("v", &object.Integer{Value: v1})
+	if sv.Choice("noopt", 2) == 1 {
+		sv.Assume(e.Prepare([]byte{NoOptimize}) == nil)
+	} else {
+		sv.Assume(e.Prepare() == nil)
+	}
+	warm := sv.Choice("runs_before", 3) // 0, 1 or 2 runs before the change
+	for k := 0; k < warm; k++ {
+		out, err := e.Execute(nil)
+		sv.Assert("C20.reconf.before", err == nil && zzSame(sv, out, zInt(a+r1+v1)))
+	}
+	perRun := 1
+	if e.Script == scripts[2] {
+		perRun = 2
+	}
+	sv.Assert("C20.reconf.calls_before", calls1 == warm*perRun)
+	what := sv.Choice("change", 3)
+	wantR, wantV := r1, v1
+	if what == 0 || what == 2 {
+		e.AddFunction("h", func(args []object.Object) object.Object {
+			calls2++
+			return &object.Integer{Value: args[0].(*object.Integer).Value + r2}
+		})
+		wantR = r2
+	}
+	if what == 1 || what == 2 {
+		e.SetVariable("v", &object.Integer{Value: v2})
+		wantV = v2
+	}
+	before := calls1
+	out, err := e.Execute(nil)
+	zzDescribe(sv, "result", out, err)
+	sv.Assert("C20.reconf.after", err == nil && zzSame(sv, out, zInt(a+wantR+wantV)))
+	if what == 1 {
+		sv.Assert("C20.reconf.calls_after", calls1 == before+perRun && calls2 == 0)
+	} else {
+		sv.Assert("C20.reconf.calls_after", calls1 == before && calls2 == perRun)
+	}
+	ok, rerr := e.Run(nil)
+	sv.Assert("C20.reconf.run_agrees", rerr == nil && ok == (a+wantR+wantV > 0))
 }
